@@ -481,17 +481,24 @@ func (c *C12Case) zoned() (peer, xff bool) {
 // the REQUEST that makes the real code deny it, found by counterfactual probes against the real
 // code: the chain on one header line instead of several, then the zones stripped from the
 // addresses.  probe returns ok=false when it cannot realise the variant (a real peer's zone).
-// If no variant of the request is denied, the rule configuration is the cause.
-func (c *C12Case) Cause(style string, probe func(style string, stripZones bool) (denied, ok bool)) string {
+// If no variant of the request is denied, the rule configuration is the cause.  A long chain is
+// probed by dropping the filler hops around the judged elements.
+func (c *C12Case) Cause(style string, probe func(style string, stripZones, noFill bool) (denied, ok bool)) string {
 	if (style == "lines" || style == "mixed") && len(c.Chain()) >= 2 {
-		if d, ok := probe("comma", false); ok && d {
+		if d, ok := probe("comma", false, false); ok && d {
 			return "xff-multi-line"
 		}
 		style = "comma"
 	}
+	if c.Pre+c.Suf > 0 && len(c.Xff) > 0 {
+		// the same judged elements without the filler hops around them
+		if d, ok := probe(style, false, true); ok && d {
+			return "xff-long-chain"
+		}
+	}
 	zp, zx := c.zoned()
 	if zp || zx {
-		d, ok := probe(style, true)
+		d, ok := probe(style, true, false)
 		name := "zoned-xff"
 		if zp {
 			name = "zoned-peer"
